@@ -72,7 +72,7 @@ def union_vocab(*grammars):
     return {k: i + 1 for i, k in enumerate(order)}
 
 
-def lang_diff(p1, s1, p2, s2, vocab, N, timeout_ms=120000, also_nts=()):
+def lang_diff(p1, s1, p2, s2, vocab, N, timeout_ms=120000, also_nts=(), cross=None):
     """Returns ('unsat', None) if L_N equal, ('sat', tokens) with a distinguishing string,
     ('unknown', reason) otherwise.  Also returns solver time.
     also_nts: non-terminals (present in both grammars) whose own languages are compared as well;
@@ -88,6 +88,8 @@ def lang_diff(p1, s1, p2, s2, vocab, N, timeout_ms=120000, also_nts=()):
         s.push()
         s.add(z3.Xor(L1.sentence(nt or s1), L2.sentence(nt or s2)))
         r = s.check()
+        if cross is not None and nt is None and r in (z3.sat, z3.unsat):
+            cross.update(crosscheck(s, str(r), cross.get("tag", "q")))
         if r == z3.sat:
             w = C.model_tokens(s.model(), toks, n)
             return "sat", (w if nt is None else (w, nt)), time.time() - t0
@@ -95,6 +97,24 @@ def lang_diff(p1, s1, p2, s2, vocab, N, timeout_ms=120000, also_nts=()):
             return "unknown", s.reason_unknown(), time.time() - t0
         s.pop()
     return "unsat", None, time.time() - t0
+
+
+def crosscheck(solver, expect, tag, timeout=180):
+    """Second opinion on a query: dump it as SMT-LIB2 and ask cvc5 and the system z3 4.8.12.
+    Returns dict solver -> verdict ('(error' lines or time-outs count as inconclusive)."""
+    d = os.path.join(BUILD, "smt")
+    os.makedirs(d, exist_ok=True)
+    f = os.path.join(d, "%s.smt2" % tag)
+    open(f, "w").write("(set-logic ALL)\n" + solver.to_smt2())
+    out = {}
+    for name, cmd in (("cvc5", ["cvc5", "--lang", "smt2", f]), ("z3-4.8.12", ["/usr/bin/z3", f])):
+        rc, o = sh(cmd, timeout=timeout)
+        v = o.strip().splitlines()[0] if o.strip() else "no output"
+        if "(error" in o or rc == 124:
+            v = "inconclusive"
+        out[name] = v
+    out["agree"] = all(v == expect for k, v in out.items() if k != "agree" and v in ("sat", "unsat"))
+    return out
 
 
 def render_tokens(vocab, toks):
